@@ -50,10 +50,10 @@ func New(options ...VMOption) *VM {
 	for _, o := range options {
 		o(&config)
 	}
+	vm.stdout = config.stdout // (before the loaders: a loader's prelude script may print)
 	for _, l := range config.loaders {
 		l(vm)
 	}
-	vm.stdout = config.stdout
 	return vm
 }
 
